@@ -8,6 +8,7 @@ import (
 	"strings"
 
 	yae "github.com/goghcrow/yae"
+	"github.com/goghcrow/yae/parser/ast"
 	"github.com/goghcrow/yae/simrt"
 	"github.com/goghcrow/yae/types"
 	"github.com/goghcrow/yae/val"
@@ -38,6 +39,7 @@ type PreCompile struct {
 type Scenario struct {
 	Shared     []EngineSpec `json:"shared,omitempty"`
 	Pre        []PreCompile `json:"pre,omitempty"`
+	Trees      []PreCompile `json:"trees,omitempty"` // sources parsed ONCE (Expr.Parse) during set-up; `csplit` ops compile the kept tree (Expr.CompileExpr)
 	Tasks      [][]Op       `json:"tasks"`
 	ColdFirst  bool         `json:"cold_first,omitempty"` // run the concurrent phase before any solo run
 	Sweep      int          `json:"sweep,omitempty"`      // after the run proper: so many more concurrent runs with one sync-point preemption each
@@ -51,6 +53,8 @@ type preState struct {
 	callables []yae.Callable
 	callSpecs []EngineSpec
 	envs      map[string]interface{}
+	trees     []ast.Expr
+	treeE     []int
 }
 
 var dummyRec = &recorder{}
@@ -88,6 +92,21 @@ func buildPre(sc *Scenario, recs []*recorder) *preState {
 			cs = ps.specs[pc.E]
 		}
 		ps.callSpecs = append(ps.callSpecs, cs)
+	}
+	for _, tr := range sc.Trees {
+		var t ast.Expr
+		if tr.E >= 0 && tr.E < len(ps.engines) {
+			func() {
+				defer func() { recover() }()
+				t = ps.engines[tr.E].Parse(tr.Prog.Src)
+			}()
+		}
+		ps.trees = append(ps.trees, t)
+		if tr.E >= 0 && tr.E < len(ps.engines) {
+			ps.treeE = append(ps.treeE, tr.E)
+		} else {
+			ps.treeE = append(ps.treeE, -1)
+		}
 	}
 	for name, mk := range envMakers {
 		ps.envs[name] = mk()
@@ -179,6 +198,25 @@ func runScript(ops []Op, ps *preState, rec *recorder, region bool) []string {
 					dbg = "|dbg:" + dbg
 				}
 				return "val:" + render(v) + callsSuffix(rec) + dbg
+			case "csplit":
+				// the two-step API: a tree parsed once during set-up and kept by the host is
+				// compiled (Expr.CompileExpr) by several tasks at once, each against the type
+				// environment of its own typing, and evaluated once
+				if op.C < 0 || op.C >= len(ps.trees) || ps.trees[op.C] == nil {
+					return "skip"
+				}
+				ei := ps.treeEng(op.C)
+				if ei < 0 {
+					return "skip"
+				}
+				if region {
+					simrt.Enter("h.compile")
+					defer simrt.Leave("h.compile")
+				}
+				var o obs
+				tree := ps.trees[op.C]
+				splitRun(&o, ps.engines[ei], ps.specs[ei], func(func() ast.Expr) ast.Expr { return tree }, "", op.Env)
+				return o.Class + ":" + o.Value
 			case "register":
 				// a function registered on the task's OWN engine (possibly after that engine's
 				// first compilation): other engines must neither see it nor be disturbed by it
@@ -209,6 +247,13 @@ func runScript(ops []Op, ps *preState, rec *recorder, region bool) []string {
 		simrt.Mix(out[i])
 	}
 	return out
+}
+
+func (ps *preState) treeEng(i int) int {
+	if i < 0 || i >= len(ps.treeE) {
+		return -1
+	}
+	return ps.treeE[i]
 }
 
 func callsSuffix(rec *recorder) string {
@@ -639,6 +684,30 @@ func genFailScenario(r *rng) *Scenario {
 	return sc
 }
 
+// genSplitScenario: trees parsed once on a shared engine, compiled concurrently under
+// different typings (see the `csplit` operation).
+var splitSrcs = []string{"lo[0].id", "o.id", "m[\"k1\"]", "ll[0]", "mo[\"u\"].id", "l[0]", "o.tags[0]", "lo[1].tags", "len(ls)", "get(mi, 1, mi[2])", "[o.id, lo[0].id]", "string(o)"}
+
+func genSplitScenario(r *rng) *Scenario {
+	sc := &Scenario{ColdFirst: r.chance(0.6)}
+	sc.Shared = []EngineSpec{{[]string{"vm", "vm", "vmcall", "closure", "interp"}[r.intn(5)], false, 0, false}}
+	nt := 1 + r.intn(2)
+	for i := 0; i < nt; i++ {
+		sc.Trees = append(sc.Trees, PreCompile{0, Prog{Src: splitSrcs[r.intn(len(splitSrcs))]}})
+	}
+	k := 2 + r.intn(3)
+	for t := 0; t < k; t++ {
+		var ops []Op
+		n := 1 + r.intn(4)
+		for i := 0; i < n; i++ {
+			ops = append(ops, Op{K: "csplit", C: r.intn(nt), Env: genericEnvs[r.intn(len(genericEnvs))]})
+		}
+		sc.Tasks = append(sc.Tasks, ops)
+	}
+	sc.Sim = genSimConfig(r)
+	return sc
+}
+
 // genRegexScenario: every task evaluates match() with patterns the process has not
 // compiled before (some shared between tasks): anything memoised per pattern is
 // inserted and looked up concurrently.
@@ -808,6 +877,9 @@ func genScenario0(r *rng, cold bool) *Scenario {
 	}
 	if !cold && r.chance(0.07) {
 		return genFailScenario(r)
+	}
+	if !cold && r.chance(0.06) {
+		return genSplitScenario(r)
 	}
 	if r.chance(0.07) {
 		return genRegisterScenario(r, cold)
